@@ -20,10 +20,14 @@ import (
 
 var smMode bool
 var emMode bool // engine mode: script mode with the requests of findBug (Go.EM)
+var stMode bool // stream mode: script mode with the requests of the bit stream (Go.StM): groups that are not lexically nested
 var smMonad = "Go.SM"
 var smPartial func(n ast.Node) bool
 
 func (m *imp) mon() string {
+	if m.st {
+		return "Go.StM"
+	}
 	if m.em {
 		return "Go.EM"
 	}
@@ -126,7 +130,28 @@ func (m *imp) viewRead(x *ast.SelectorExpr) (effect string, ty gty, ok bool) {
 }
 
 // is evaluating n (itself, not its children) an effect of script mode
+// stream mode: which request of the bit stream is the call
+func (m *imp) streamCall(c *ast.CallExpr) string {
+	if !m.st {
+		return ""
+	}
+	switch exprText(m.p.fset, c.Fun) {
+	case m.stream + ".beginGroup":
+		return "beginGroup"
+	case m.stream + ".endGroup":
+		return "endGroup"
+	case m.stream + ".drawBits":
+		return "drawBits"
+	case "flipBiasedCoin":
+		return "coin"
+	}
+	return ""
+}
+
 func (m *imp) smEffect(n ast.Node) bool {
+	if c, ok := n.(*ast.CallExpr); ok && m.streamCall(c) != "" {
+		return true
+	}
 	if m.isEarlyTest(n) {
 		return true
 	}
@@ -151,6 +176,41 @@ func (m *imp) smEffect(n ast.Node) bool {
 // smHoist: the pre-binds of an effect of script mode (a read of the shrinker's state, a call of a function value, a
 // call of a translated function); walk hoists what the operands need first
 func (m *imp) smHoist(n ast.Node, walk func(ast.Node)) ([]string, bool) {
+	if c, ok := n.(*ast.CallExpr); ok && m.streamCall(c) != "" {
+		var code string
+		var ty gty
+		switch m.streamCall(c) {
+		case "beginGroup":
+			walk(c.Args[0])
+			walk(c.Args[1])
+			l, _ := m.expr(c.Args[0], "str")
+			st, _ := m.expr(c.Args[1], "bool")
+			code, ty = fmt.Sprintf("(Go.StM.beginG %s %s)", l, st), "i64"
+		case "endGroup":
+			walk(c.Args[0])
+			walk(c.Args[1])
+			i, _ := m.expr(c.Args[0], "i64")
+			d, _ := m.expr(c.Args[1], "bool")
+			code, ty = fmt.Sprintf("(Go.StM.endG %s %s)", i, d), "unit"
+		case "drawBits":
+			walk(c.Args[0])
+			n, _ := m.expr(c.Args[0], "i64")
+			code, ty = fmt.Sprintf("(Go.StM.draw %s)", n), "u64"
+		case "coin":
+			walk(c.Args[1])
+			p, pty := m.expr(c.Args[1], "f64")
+			if pty != "f64" {
+				panic("translate(st): flipBiasedCoin with a probability of type " + string(pty))
+			}
+			m.fuel = true
+			// floats are bit patterns here; utils.go's flipBiasedCoin takes the float with that pattern
+			code, ty = fmt.Sprintf("(Go.StM.sub (flipBiasedCoin fe (Go.FX.ofBits %s) fuel fun b_ => .ret (Go.Enc.enc b_)))", p), "bool"
+		}
+		tmp := m.fresh("r")
+		m.idxTmp[c], m.idxTy[c] = tmp, ty
+		m.t.env[tmp] = ty
+		return []string{fmt.Sprintf("%s >>= fun %s =>", code, tmp)}, true
+	}
 	if m.isEarlyTest(n) {
 		it, ty := m.expr(ast.NewIdent("iter"), "i64")
 		if ty != "i64" {
